@@ -848,6 +848,26 @@ theorem tstep_outcome_crashed (s s' : TSt) (leaves : List Nat) (hcr : s.crashed 
     simp only [Bool.and_eq_true] at hc
     exact hc.2
 
+/-- A task body ending with an exception, from a crash-free state, records that exception. -/
+theorem tstep_taskEnded_exc (s s' : TSt) (tid e : Nat) (hcr : s.crashed = [])
+    (h : tstep? s (.taskEnded tid (some e)) = some s') : e ∈ s'.crashed := by
+  have hie : s.crashed.isEmpty = true := by rw [hcr]; rfl
+  unfold tstep? at h
+  simp only [hie, Bool.not_true, Bool.false_eq_true, if_false, if_true] at h
+  split at h
+  · exact absurd h (by simp)
+  cases hsp : s.spec? tid with
+  | none => simp [hsp] at h
+  | some sp =>
+    cases hst : s.statusOf tid with
+    | none => simp [hsp, hst] at h
+    | some st =>
+      simp only [hsp, hst] at h
+      obtain ⟨hok, h⟩ := ite_some_none h
+      subst h
+      rw [(normalize_frame _ _).2.2.2]
+      simp
+
 theorem init_stack_reg (id : Nat) (r : Option Nat) :
     (TSt.init [.reg id r]).stack = [.cb id r] := rfl
 
